@@ -69,6 +69,22 @@ def abort_all() -> None:
         _flush(trace)
 
 
+# -- builder traces: one trace per root GraphBuilder (kind "builder/<root token>") -------------------
+def builder_kind(builder: Any) -> str:
+    return "builder/" + tok(builder.root, "b")
+
+
+def builder_stack(builder: Any) -> list[list[str]]:
+    return [[str(n), str(c)] for n, c in builder._scope_stack]  # pylint: disable=protected-access
+
+
+if ENABLED:
+    import atexit
+
+    # traces that are never closed (a GraphBuilder has no end of life) are flushed when the process ends
+    atexit.register(abort_all)
+
+
 # -- abstract snapshots of a model (used by the rewriter hooks) ---------------------------------
 _tokens: dict[int, str] = {}
 _keepalive: list[Any] = []
